@@ -5,7 +5,7 @@ root='/verif/seeded'
 rows=[]
 first={}
 if os.path.exists(root+'/matrix.tsv'):
-    for l in open(root+'/matrix.tsv'):
+    for l in open(root+'/matrix.tsv', errors='replace'):
         p=l.rstrip('\n').split('\t')
         if len(p)>=4 and p[2]=='1' and (p[0],p[1]) not in first:
             first[(p[0],p[1])]=p[3]
